@@ -37,6 +37,13 @@ def statusValues : List Nat := [0, 1, 2, 3, 4, 5, 6, 7, 8, 9, 10]
 /-- MaxBlobSize of a client fresh from NewClient -/
 def defaultMaxBlobSize : Nat := 1974272
 def hookDefaultMaxBlobSize : Nat := 1974272
+/-- timeouts (nanoseconds) of the *http.Server inside the server proxy.NewServer returns; 0 = none -/
+def serverWriteTimeout : Nat := 0
+def serverReadTimeout : Nat := 0
+def serverIdleTimeout : Nat := 0
+def serverReadHeaderTimeout : Nat := 2000000000
+/-- the handler is wrapped by http.TimeoutHandler (would answer 503 for a slow DA call) -/
+def serverHandlerIsTimeoutHandler : Bool := false
 /-- sizes of the Get calls RetrieveWithHelpers makes for 250 ids -/
 def getChunks250 : List Nat := [100, 100, 50]
 def retrieve250Blobs : Nat := 250
